@@ -34,22 +34,38 @@ def to_mode(shape, largs, start, mode):
 
 def call_shape(g, shape, a):
     t = g.trace
+    kw = a.get("kwargs", {})          # extra words / comment handed through to every segment
+    form = a.get("form")              # 'point': pass Point objects instead of lists; 'np': numpy arrays
+    if form:
+        import numpy as np
+        from gscrib.geometry import Point
+
+        def cv(v):
+            if form == "point":
+                return Point(*v) if len(v) == 3 else Point(v[0], v[1])
+            return np.array(v, dtype=float)
+        a = dict(a)
+        for k in ("target", "center"):
+            if k in a:
+                a[k] = cv(a[k])
+        if "targets" in a:
+            a["targets"] = [cv(p) for p in a["targets"]]
     if shape == "arc":
-        t.arc(a["target"], a["center"])
+        t.arc(a["target"], a["center"], **kw)
     elif shape == "arc_radius":
-        t.arc_radius(a["target"], a["radius"])
+        t.arc_radius(a["target"], a["radius"], **kw)
     elif shape == "circle":
-        t.circle(a["center"])
+        t.circle(a["center"], **kw)
     elif shape == "helix":
-        t.helix(a["target"], a["center"], a["turns"])
+        t.helix(a["target"], a["center"], a["turns"], **kw)
     elif shape == "thread":
-        t.thread(a["target"], a["pitch"])
+        t.thread(a["target"], a["pitch"], **kw)
     elif shape == "spiral":
-        t.spiral(a["target"], a["turns"])
+        t.spiral(a["target"], a["turns"], **kw)
     elif shape == "spline":
-        t.spline(a["targets"])
+        t.spline(a["targets"], **kw)
     elif shape == "polyline":
-        t.polyline(a["targets"])
+        t.polyline(a["targets"], **kw)
     elif shape == "move":
         g.move(*([a["target"]] if len(a["target"]) == 3 else []), **({} if len(a["target"]) == 3 else {"x": a["target"][0], "y": a["target"][1]}))
     elif shape == "rapid":
